@@ -63,7 +63,10 @@ class Interp(Exec):
 
     def fresh(self, st, base, sort):
         bs = self.cur_binders(st)
-        n = next(self.ctx.counter)
+        # state-local numbering: a statement that is restarted after a case split must
+        # re-create the same symbols (the snapshot restores the counter)
+        st.nfresh += 1
+        n = f"s{st.nfresh}"
         if not bs:
             return z3.Const(f"{base}!{n}", sort)
         f = z3.Function(f"{base}!{n}", *[b.sort() for b in bs], sort)
@@ -85,7 +88,8 @@ class Interp(Exec):
     def fresh_of(self, st, ty, base):
         """Fresh abstract value of a type (result of a call, havoc)."""
         bs = tuple(self.cur_binders(st))
-        n = next(self.ctx.counter)
+        st.nfresh += 1
+        n = f"s{st.nfresh}"
         v = self.mk_abstract(ty, f"{base}!{n}", bs)
         if isinstance(v, H):
             return self.alloc(st, v)
@@ -294,12 +298,18 @@ class Interp(Exec):
     def ev_IfExp(self, node, st):
         c = self.cond(st, node.test)
         cs = z3.simplify(c)
-        if z3.is_true(cs) or self.implied(st, cs):
+        if z3.is_true(cs) or any(p.eq(cs) for p in st.pc):
             return self.ev(node.body, st)
-        if z3.is_false(cs) or self.implied(st, z3.simplify(z3.Not(cs))):
+        ncs = z3.simplify(z3.Not(cs))
+        if z3.is_false(cs) or any(p.eq(ncs) for p in st.pc):
             return self.ev(node.orelse, st)
-        a = self.guarded(st, c, lambda: self.force(st, self.ev(node.body, st)))
-        b = self.guarded(st, t_not(c), lambda: self.force(st, self.ev(node.orelse, st)))
+        DEAD = VPoison("value of an infeasible branch")
+        a = self.guarded(st, c, lambda: self.force(st, self.ev(node.body, st)), dead=DEAD)
+        b = self.guarded(st, t_not(c), lambda: self.force(st, self.ev(node.orelse, st)), dead=DEAD)
+        if a is DEAD:
+            return b
+        if b is DEAD:
+            return a
         try:
             if isinstance(a, VRef) and isinstance(b, VRef) and not (a.root == b.root and a.path == b.path):
                 h = self.v_ite(c, self.resolve(st, a), self.resolve(st, b))
@@ -574,6 +584,8 @@ class Interp(Exec):
 
     def contains(self, st, cont, x):
         cont = self.force(st, cont)
+        if isinstance(x, VDyn):
+            x = self.narrow(st, x)
         if isinstance(cont, VStr) and isinstance(x, VStr):
             return z3.Contains(cont.t, x.t)
         if isinstance(cont, VTuple):
@@ -612,6 +624,8 @@ class Interp(Exec):
         return self.getattr(st, obj, node.attr, node)
 
     def getattr(self, st, obj, name, node=None):
+        if isinstance(obj, VDyn) and any(isinstance(x, VRec) and name in x.names for _, x in obj.alts):
+            return self.dyn_apply(st, obj, lambda x: self.getattr(st, x, name, node))
         if isinstance(obj, VRec):
             if name in obj.names:
                 return obj.get(name)
@@ -654,6 +668,8 @@ class Interp(Exec):
         return self.getitem(st, obj, idx, node)
 
     def getitem(self, st, obj, idx, node=None):
+        if isinstance(idx, VDyn):
+            idx = self.narrow(st, idx)
         if isinstance(obj, (VTuple, VRec)):
             ok, i = pyconst(idx)
             if not ok:
